@@ -116,6 +116,7 @@ def doFx (entry writer : String) : String :=
   | "iferr" => (match fatalIfError false with | some _ => "returned:none" | none => "fatal:" ++ wh)
   | "ifnil" => (match fatalIfError true with | some _ => "returned:none" | none => "fatal:" ++ wh)
   | "write" => "returned:" ++ wh
+  | "cmdnone" | "cmdbad" => "returned:none"   -- RunCommand returns an error for a missing / unknown command name
   | _ => "bad-op"
 
 def step (_ : Unit) (line : String) : Unit × String :=
